@@ -28,13 +28,14 @@ def main(run):
 
 
 def replay(run, path):
-    j = json.load(open(path))
-    rp = j.get("replay") or {}
+    """also the replay of the T02 stage inside C10 (run.prop is the host then): common.replay_begin"""
+    j, rp = replay_load(path)
+    if "theorem_file" in rp and "case" not in rp:
+        return replay_theorem(run, path, j, rp)
     print(j.get("what"))
     c = rp.get("case")
-    if not c:
-        print(json.dumps(j, indent=1, ensure_ascii=False)[:6000])
-        return 0
+    if not (isinstance(c, dict) and all(k in c for k in ('text', 'eqa'))):
+        return replay_print(j)
     print("journal:\n%s\nequity account %r, selectors %s" % (c["text"], c["eqa"], rp.get("equity_selectors")))
     print("first differing character: %s\nimplementation: %r\nmodel:          %r" % (rp.get("first_differing_character"),
                                                                                     rp.get("implementation_around"), rp.get("model_around")))
@@ -45,9 +46,7 @@ def replay(run, path):
     st = T.new_stats()
     T.check_cases(run, [c], st)
     for what, rep, found in run.violations:
-        print("REPRODUCED: %s (no failing input: correspondence only)" % what)
-        print("implementation text now:\n" + rep["implementation_text"])
-        print("model text now:\n" + rep["model_text"])
-    if not run.violations:
-        print("not reproduced: the texts are equal now (compared=%d, stages=%s)" % (st["compared"], st["stages"]))
-    return 1 if run.violations else 0
+        print("implementation text now:\n%s" % rep.get("implementation_text"))
+        print("model text now:\n%s" % rep.get("model_text"))
+    return replay_verdict(run, path, j, "T02 stage: the equity export text is the model's text and reads back as the model's transactions now "
+                                        "(compared=%d, stages=%s)" % (st["compared"], st["stages"]))
